@@ -5,14 +5,14 @@ from vlib import core
 THEOREMS = ["Props.C04." + t for t in [
     "pipeline_order", "code_facts", "check_order_complete", "type_categories", "anywhere_in_graph",
     "anywhere_in_graph_resolve", "dup_global_rejected", "dup_symbol_rejected", "dup_field_name_rejected",
-    "dup_field_id_rejected", "dup_function_rejected", "dup_argument_rejected", "dup_enum_value_name_rejected",
+    "dup_field_id_rejected", "dup_function_rejected", "dup_argument_rejected", "throws_reuses_success_rejected", "dup_enum_value_name_rejected",
     "dup_enum_number_rejected", "enum_out_of_int32_rejected", "oneway_nonvoid_rejected", "oneway_throws_rejected",
     "union_second_default_rejected", "union_check_never_fires", "undefined_type_rejected",
     "undefined_qualified_type_rejected", "nontype_symbol_as_type_rejected", "unknown_base_service_rejected",
     "typedef_cycle_rejected", "undefined_const_rejected", "undefined_or_ambiguous_const_rejected",
     "include_cycle_rejected", "abstract_stage_rejected", "reject_writes_nothing", "no_crash",
     "no_exit0_without_output_partial", "no_exit0_without_output", "union_second_default_regression",
-    "typedef_cycle_ident_regression", "dup_argument_regression", "argument_default_regression", "ambiguous_dotted_include_regression"]]
+    "typedef_cycle_ident_regression", "dup_argument_regression", "argument_default_regression", "ambiguous_dotted_include_regression", "throws_reuses_success_regression"]]
 
 PARTIAL = [
     "all rule theorems are full on the model; what stays partial is the model's reach:",
